@@ -691,7 +691,18 @@ func TestVerifC16Arb(t *testing.T) {
 		if r == nil {
 			continue
 		}
-		c16ArbCase(h, r, idx%3 == 1)
+		c16ArbCase(h, r, idx%3 == 1, nil)
+		h.End()
+	}
+	// exhaustive small-scope matrix of the duplicate rule: every PodRef shape x every job state, on a fixed cluster
+	// (3 pods of one workload on node 1, per-node limit 1): Filter on the job's pod, a waiting job for a second pod, a
+	// round, Filter on a third pod
+	for m := 0; m < 5*4; m++ {
+		r := h.Begin(n + m)
+		if r == nil {
+			continue
+		}
+		c16ArbCase(h, r, false, &c16Forced{shape: m % 5, state: m / 5})
 		h.End()
 	}
 	h.Close("one case = a cluster (5-10 pods over 3 nodes x 2 namespaces x 3 workloads with replicas in {1,3,5,8,12,20}; pod states: Ready / not Ready, terminating " +
@@ -792,7 +803,10 @@ func (w *c16World) createJob(r *vRand, id, pod, ns, kind, shape int) {
 	w.h.Op("job %d %d %d %d %d %d %d %d", id, pod, ns, phase, vB(passed), vB(passed), vB(waiting), js.uid)
 }
 
-func c16ArbCase(h *vHarness, r *vRand, headroom bool) {
+// c16Forced fixes cluster, configuration and op sequence of a case (the PodRef shape x job state matrix)
+type c16Forced struct{ shape, state int }
+
+func c16ArbCase(h *vHarness, r *vRand, headroom bool, fx *c16Forced) {
 	pickLim := func() int {
 		switch r.Intn(7) {
 		case 0:
@@ -863,6 +877,11 @@ func c16ArbCase(h *vHarness, r *vRand, headroom bool) {
 		}
 		cfg.skipCER = false
 	}
+	if fx != nil {
+		cfg = c16Cfg{mg: -1, mn: 1, ms: -1, mm: -1, mu: -1}
+		replicas = map[int]int{1: 8, 2: 8, 3: 8}
+		h.Tag(fmt.Sprintf("matrix:shape=%d,state=%d", fx.shape, fx.state))
+	}
 	h.Op("cfg %d %d %d %d %d", cfg.mg, cfg.mn, cfg.ms, cfg.mm, cfg.mu)
 	op := fmt.Sprintf("cfgx %d %d %d %d", cfg.mmKind, cfg.muKind, vB(cfg.skipCER), len(cfg.skip))
 	for _, g := range cfg.skip {
@@ -927,7 +946,18 @@ func c16ArbCase(h *vHarness, r *vRand, headroom bool) {
 			return c16RefCross
 		}
 	}
-	if headroom {
+	if fx != nil {
+		np = 4
+		for id := 1; id <= np; id++ {
+			node := 1
+			if id == 4 {
+				node = 2 // the other pod of a cross reference lives elsewhere
+			}
+			w.createPod(&c16PodS{id: id, node: node, ns: 1, wl: 2, ready: true})
+		}
+		w.createJob(r, nextJob, 1, 1, fx.state, fx.shape)
+		nextJob++
+	} else if headroom {
 		np = r.Range(4, 8)
 		nun := r.Range(1, 3)
 		for id := 1; id <= np; id++ {
@@ -995,8 +1025,16 @@ func c16ArbCase(h *vHarness, r *vRand, headroom bool) {
 		return ids
 	}
 	admittedAndWaiting := false
+	fxK, fxPod := []int{6, 0, 7, 6}, []int{1, 2, 0, 3}
 	for s, steps := 0, r.Range(6, 14); s < steps; s++ {
-		switch k := r.Intn(20); {
+		k := r.Intn(20)
+		if fx != nil {
+			if s >= len(fxK) {
+				break
+			}
+			k = fxK[s]
+		}
+		switch {
 		case k < 1: // somebody else (kubectl, another controller) creates a job for a pod without one; its PodRef may be partial
 			ids := []int{}
 			for _, id := range podIDs() {
@@ -1015,6 +1053,9 @@ func c16ArbCase(h *vHarness, r *vRand, headroom bool) {
 			kind := 3
 			if r.Chance(1, 3) {
 				kind = r.Intn(2)
+			}
+			if fx != nil {
+				pod, sh, kind = fxPod[s], c16RefFull, 3
 			}
 			w.createJob(r, nextJob, pod, w.pods[pod].ns, kind, sh)
 			nextJob++
@@ -1035,6 +1076,9 @@ func c16ArbCase(h *vHarness, r *vRand, headroom bool) {
 				if len(busy) > 0 {
 					pod = busy[r.Intn(len(busy))]
 				}
+			}
+			if fx != nil {
+				pod = fxPod[s]
 			}
 			id := nextJob
 			nextJob++
